@@ -400,7 +400,7 @@ func (r *groupsRun) one(traceNo, steps int) {
 		panic(err)
 	}
 	r.srv = srv
-	sched.Mapper = r.mapper
+	sched.SetMapper(r.mapper)
 	r.sink.Reset("trace", traceNo, "kind", r.kind)
 	for i := 0; i < 3; i++ {
 		r.peers = append(r.peers, r.login())
